@@ -324,7 +324,6 @@ fn bdd_api_case(ctx: &mut Ctx, rng: &mut Rng) {
         let wr: Vec<(OReal, OReal)> = (0..n).map(|_| { let nm = rng.bool(); OReal::random_pair(rng, nm) }).collect();
         let wc: Vec<(OCx, OCx)> = (0..n).map(|_| { let nm = rng.bool(); OCx::random_pair(rng, nm) }).collect();
         let wp: Vec<(OPoly, OPoly)> = (0..n).map(|_| { let nm = rng.bool(); OPoly::random_pair(rng, nm) }).collect();
-        let exact = float_exact(&wr) && float_exact(&wc) && float_exact(&wp);
         let pf = new_wmc_params_f64();
         let pc = new_wmc_params_complex();
         let pp = new_wmc_params_poly();
@@ -382,9 +381,6 @@ fn bdd_api_case(ctx: &mut Ctx, rng: &mut Rng) {
             }
             ctx.count("c_weight_roundtrips", 3);
         }
-        let native_pf = params(&wr);
-        let native_pc = params(&wc);
-        let native_pp = params(&wp);
         for i in 0..m {
             let (c, x, t) = (cp[i], np[i], &tp[i]);
             // constants / counts / printing / json
@@ -422,6 +418,47 @@ fn bdd_api_case(ctx: &mut Ctx, rng: &mut Rng) {
                 ctx.violation("ffi.model_count", "robdd_model_count is not the number of models",
                     json!({"i": i, "c": mc, "expected": want, "num_vars": nvars, "function": t.hex(), "input": info}));
             }
+        }
+        // weighted counts, in rounds: between two rounds some weights of the SAME C weight tables
+        // are overwritten through the C setters ("any call sequence": count, set_weight, count
+        // again on one table and one diagram must see the new weights)
+        let (mut wr, mut wc, mut wp) = (wr, wc, wp);
+        let rounds = 1 + rng.below(3);
+        for round in 0..rounds {
+            if round > 0 {
+                for v in 0..n {
+                    if !rng.chance(1, 3) {
+                        continue;
+                    }
+                    let nm = rng.bool();
+                    match rng.below(3) {
+                        0 => {
+                            wr[v] = OReal::random_pair(rng, nm);
+                            wmc_param_f64_set_weight(pf, v as u64, wr[v].0.to_r().0, wr[v].1.to_r().0);
+                        }
+                        1 => {
+                            wc[v] = OCx::random_pair(rng, nm);
+                            wmc_param_complex_set_weight(pc, v as u64, wc[v].0.to_r(), wc[v].1.to_r());
+                        }
+                        _ => {
+                            wp[v] = OPoly::random_pair(rng, nm);
+                            let lc: Vec<f64> = wp[v].0 .0.iter().take(wp[v].0.used()).map(|d| d.to_f64()).collect();
+                            let hc: Vec<f64> = wp[v].1 .0.iter().take(wp[v].1.used()).map(|d| d.to_f64()).collect();
+                            wmc_param_poly_set_weight(pp, v as u64, lc.as_ptr(), lc.len(), hc.as_ptr(), hc.len());
+                        }
+                    }
+                    ctx.count("c_weights_overwritten_between_counts", 1);
+                }
+            }
+            let exact = float_exact(&wr) && float_exact(&wc) && float_exact(&wp);
+            let native_pf = params(&wr);
+            let native_pc = params(&wc);
+            let native_pp = params(&wp);
+          for i in 0..m {
+            let (c, x, t) = (cp[i], np[i], &tp[i]);
+            if round > 0 && rng.chance(1, 3) {
+                continue;
+            }
             if !exact {
                 ctx.count("skipped_not_exactly_representable", 1);
                 continue;
@@ -457,6 +494,7 @@ fn bdd_api_case(ctx: &mut Ctx, rng: &mut Rng) {
                     json!({"i": i, "c_len": clen, "native_len": npo.len, "c": buf[..k].to_vec(), "oracle": opo.show(), "input": info}));
             }
             destroy_polynomial(cpo);
+          }
         }
         if bdd_num_recursive_calls(cb) != nb.num_recursive_calls() {
             // both executed the same sequence except for the queries issued through C only
